@@ -18,7 +18,7 @@ RULE = ('every catalogue block (arithmetic, logic, selection, comparison) at the
         'operands (0, 1, max, sign bit, alternating) and with raw out-of-range stimulus (-1, 2**w, 2**w+5, -2**w) poked through Wire.put; '
         'hand-picked overflow designs (Not wider than its input, Sub below zero, Mul into a narrow result, ShiftLeftConstant by >= w, '
         'Constant/Sequence/RandomValue with negative and oversized values, Reg with oversized/negative reset_value or narrower q, SignExtend '
-        'into a narrower result, Div/Mod by zero, memories/MsgSequencer/Latch with narrow outputs, BidirBuf onto a narrow BidirWire, '
+        'into a narrower result, Div/Mod by zero, memories/MsgSequencer/Latch with narrow outputs, multi-bit wires on carry/enable/reset/select ports with results wider than the operands (poked or driven by a counter over 150 cycles), BidirBuf onto a narrow BidirWire, '
         'StreamCapture and Waveform capture); every design additionally carries two harness Waveforms over watch lists with repeated wires, a wire plus one of its ports and mixed widths (random order and widest first) whose every sample is range-checked against its own wire and compared with the live value the probe saw in that cycle; random netgen compositions with registers; a case is (design, input vector); '
         'non-trivial = during that case some put/prepare received a raw argument different from the value stored (the block relied on the mask), '
         'measured by the E1 wrapper; distinct by content hash')
@@ -410,6 +410,23 @@ def special_plans():
                       N('bb', 'BidirBuf', dict(pout='pout', poe='poe', pin='pin', bidir='pad'), {}),
                       N('cap', 'StreamCapture', dict(x='pad')), N('wv', 'Waveform', dict(w0='pad'))]
             out.append(('pad_put_%d_%d_k%d_o%d' % (pw, aw, k, off), _plan(wires, ['a'], blocks, bidir=('pad',))))
+    # multi-bit wires on carry / control ports (the constructors accept them), results wider than / equal to / narrower
+    # than the operands; the carry is poked (all-ones, raw out-of-range) or driven by a free running counter (long runs)
+    for kind in ('AddCarryInWide', 'AddWideCI', 'SubBorrowInWide'):
+        for aw, bw, rw, cw in [(4, 4, 5, 3), (4, 4, 4, 4), (8, 3, 9, 8), (3, 5, 6, 7), (8, 8, 16, 12), (1, 1, 2, 2), (6, 6, 3, 6), (16, 16, 17, 16)]:
+            if rw < aw:
+                continue        # AddCarryIn / SubBorrowIn (also inside Add) assert rw >= aw
+            out.append(('%s_poked_%d_%d_%d_ci%d' % (kind, aw, bw, rw, cw), _plan(dict(a=aw, b=bw, r=rw, ci=cw), ['a', 'b', 'ci'],
+                        [N('x', kind, dict(a='a', b='b', ci='ci', r='r')), N('cap', 'StreamCapture', dict(x='r'))])))
+            out.append(('%s_counter_%d_%d_%d_ci%d' % (kind, aw, bw, rw, cw), _plan(dict(a=aw, b=bw, r=rw, ci=cw, inc=1), ['a', 'b', 'inc'],
+                        [N('k', 'Counter', dict(reset=None, inc='inc', q='ci')), N('x', kind, dict(a='a', b='b', ci='ci', r='r')),
+                         N('wv', 'Waveform', dict(w0='r', w1='ci'))])))
+    for w, cw in [(4, 3), (8, 2), (1, 4)]:
+        out.append(('reg_wide_ctl_%d_%d' % (w, cw), _plan(dict(d=w, q=max(1, w - 1), e=cw, rs=cw), ['d', 'e', 'rs'],
+                                                        [N('g', 'Reg', dict(d='d', q='q', enable='e', reset='rs'), dict(reset_value=(1 << w) + 1))])))
+        out.append(('counter_wide_ctl_%d_%d' % (w, cw), _plan(dict(q=w, inc=cw, rs=cw), ['inc', 'rs'], [N('k', 'Counter', dict(reset='rs', inc='inc', q='q'))])))
+        out.append(('mux2_wide_sel_%d_%d' % (w, cw), _plan(dict(s=cw, a=w, b=w, r=w), ['s', 'a', 'b'], [C('m', 'Mux2', (w, cw), ['s', 'a', 'b', 'r'])])))
+        out.append(('delayline_wide_ctl_%d_%d' % (w, cw), _plan(dict(a=w, r=w, e=cw, rs=cw), ['a', 'e', 'rs'], [N('dl', 'DelayLine', dict(a='a', en='e', reset='rs', r='r'), dict(delay=2))])))
     for w in (1, 2, 5):
         out.append(('counter_%d' % w, _plan(dict(rs=1, inc=1, q=w), ['rs', 'inc'], [N('k', 'Counter', dict(reset='rs', inc='inc', q='q'), {}), N('wv', 'Waveform', dict(w0='q'))])))
         out.append(('modcounter_%d' % w, _plan(dict(rs=1, inc=1, q=w, co=1), ['rs', 'inc'], [N('k', 'ModuloCounter', dict(reset='rs', inc='inc', q='q', carryout='co'), dict(mod=(1 << w) + 1))])))
@@ -464,7 +481,7 @@ def run_check(run, tier, seed, shard):
     sp = special_plans()
     for k in shard_slice(range(len(sp)), shard):
         name, plan = sp[k]
-        pv = plan_case(run, name, plan, rng(seed, 'C06', 'special', name), stats, 'special', n_cycles=14)
+        pv = plan_case(run, name, plan, rng(seed, 'C06', 'special', name), stats, 'special', n_cycles=130 if '_counter_' in name else 14)
         if pv is None:
             run.inconclusive.append('special design %s did not build' % name)
         elif k % 23 == 0:
@@ -499,7 +516,7 @@ def run_check(run, tier, seed, shard):
             plan = netgen.gen_seq(rnd, rnd.randint(2, 6))
             wl = 'netgen_seq'
         else:
-            plan = netgen.gen_dag(rnd, rnd.randint(3, 14 if quick else 30), n_regs=rnd.randint(1, 4), n_boxes=rnd.randint(0, 2), allow_random=True, reg_narrow=True, tier=tier)
+            plan = netgen.gen_dag(rnd, rnd.randint(3, 14 if quick else 30), n_regs=rnd.randint(1, 4), n_boxes=rnd.randint(0, 2), allow_random=True, reg_narrow=True, tier=tier, wide_ctl=0.5)
             wl = 'netgen_dag'
         plan_case(run, '%s_%d' % (wl, i), plan, rnd, stats, wl, n_cycles=16 if quick else 60)
 
